@@ -1043,107 +1043,187 @@ Qed.
 (* 7. the worker (worker_coro) under a virtual clock                 *)
 (* ================================================================= *)
 
-(* whenever the worker is blocked in wait_until(d): a notification is pending, or d is not later than ANY time point
-   in the array (d = time_point::max only while the array is empty) *)
-Definition wait_ok (w : wst) : Prop :=
-  match w_mode w with
-  | WRun => True
-  | WWait d ntf =>
-      ntf = true \/
-      match d with
-      | Some t => forall e, In e (w_sched w) -> t <= e_tp e
-      | None => w_sched w = []
-      end
+(* d is not later than ANY time point in the array (time_point::max only while the array is empty) *)
+Definition bound_ok (l : list entry) (d : option Z) : Prop :=
+  match d with
+  | Some t => forall e, In e l -> t <= e_tp e
+  | None => l = []
   end.
 
-Record winv (w : wst) : Prop := mkWinv {
+(* whenever the worker is blocked in (or about to enter) wait_until(d): a wake-up is pending, or d is such a bound *)
+Definition wait_ok (w : wst) : Prop :=
+  match w_mode w with
+  | WWait d ntf => ntf = true \/ bound_ok (w_sched w) d
+  | WDecided d => bound_ok (w_sched w) d
+  | _ => True
+  end.
+
+(* with the stop-token-aware wait a requested stop never leaves the worker blocked *)
+Definition stop_ok (aw : bool) (w : wst) : Prop :=
+  aw = true -> w_stop w = true -> match w_mode w with WWait _ ntf => ntf = true | _ => True end.
+
+Record winv (aw : bool) (w : wst) : Prop := mkWinv {
   wi_heap : heap_ok (w_sched w);
   wi_err : w_err w = false;
   wi_wait : wait_ok w;
-  wi_done : forall t now, In (t, now) (w_done w) -> live t = true /\ e_tp t <= now /\ now <= w_now w }.
+  wi_done : forall t now, In (t, now) (w_done w) -> live t = true /\ e_tp t <= now /\ now <= w_now w;
+  wi_cons : Permutation (w_in w) (map fst (w_done w) ++ w_rm w ++ pending (w_sched w));
+  wi_stop : stop_ok aw w }.
 
-Lemma winv0 : winv wst0.
-Proof. split; cbn; auto using heap_ok_nil. intros t now []. Qed.
+Lemma winv0 aw : winv aw wst0.
+Proof. split; cbn; auto using heap_ok_nil. - intros t now []. - intros _ H. discriminate. Qed.
 
-Lemma wait_ok_notify l now m stop done :
-  wait_ok (mkW l now (notify m) stop done false).
-Proof. unfold wait_ok. cbn [w_mode]. destruct m; cbn [notify]; auto. Qed.
+Lemma perm_into_tail {A} (x : A) (l a b c : list A) :
+  Permutation l (a ++ b ++ c) -> Permutation (x :: l) (a ++ b ++ x :: c).
+Proof. intros P. rewrite app_assoc. apply Permutation_cons_app. rewrite <- app_assoc. exact P. Qed.
 
-Lemma wstep_inv w e : winv w -> winv (wstep w e).
+Lemma perm_tail_to_mid {A} (x : A) (l a b c c' : list A) :
+  Permutation l (a ++ b ++ c) -> Permutation c (x :: c') -> Permutation l (a ++ (x :: b) ++ c').
 Proof.
-  intros [IH IE IW ID]. unfold wstep. rewrite IE.
-  destruct e as [pid id tp|id|dt| | |].
-  - (* schedule from another thread *)
-    unfold schedule. set (en := mkE tp (Some pid) id).
-    destruct (heap_push_ok (w_sched w) en IH) as (H1 & P1 & L1).
-    split; cbn [w_sched w_err w_mode w_done w_now]; auto.
-    destruct (is_empty (w_sched w) || match w_sched w with t :: _ => e_tp en <? e_tp t | [] => true end)%bool eqn:NT.
-    + apply wait_ok_notify.
-    + unfold wait_ok in *. cbn [w_mode w_sched]. destruct (w_mode w) as [|d ntf]; [exact I|].
-      destruct IW as [IW|IW]; [left; exact IW|right].
-      destruct (w_sched w) as [|t rest] eqn:EL; [cbn in NT; discriminate|].
-      cbn [is_empty orb] in NT.
-      destruct d as [td|]; [|discriminate].
-      intros u IU. apply (Permutation_in _ P1) in IU. destruct IU as [<-|IU]; [|apply IW; exact IU].
-      specialize (IW t (or_introl eq_refl)). lia.
-  - (* remove / cancel from another thread: never notifies, and does not need to *)
-    destruct (remove_ok (w_sched w) id IH) as (l' & r & E & H' & TS & EM & _). rewrite E. cbn [fst].
-    split; cbn [w_sched w_err w_mode w_done w_now]; auto.
-    unfold wait_ok in *. cbn [w_mode w_sched]. destruct (w_mode w) as [|d ntf]; [exact I|].
-    destruct IW as [IW|IW]; [left; exact IW|right].
-    destruct d as [td|]; [|apply EM; exact IW].
-    intros u IU. destruct (TS u IU) as (u' & IU' & <-). apply IW. exact IU'.
-  - split; cbn [w_sched w_err w_mode w_done w_now]; auto.
-    intros t now IT. destruct (ID t now IT) as (A & B & C). repeat split; auto. lia.
-  - (* one worker iteration *)
-    destruct (w_stop w || negb (runnable w))%bool; [split; assumption|].
-    destruct (get_expired_ok (w_sched w) (w_now w) IH) as (l' & r & E & H' & SUB & SP). rewrite E.
-    destruct r as [t|tp|]; cbn [expired_spec] in SP.
-    + destruct SP as (LT & DUE & _). split; cbn [w_sched w_err w_mode w_done w_now]; auto.
-      * exact I.
-      * intros t0 now [Q|IT]; [inversion Q; subst; repeat split; auto; lia|apply ID; exact IT].
-    + destruct SP as (_ & _ & _ & MIN). split; cbn [w_sched w_err w_mode w_done w_now]; auto.
-      unfold wait_ok. cbn [w_mode w_sched]. right. exact MIN.
-    + destruct SP as (-> & _). split; cbn [w_sched w_err w_mode w_done w_now]; auto.
-      unfold wait_ok. cbn [w_mode w_sched]. right. reflexivity.
-  - split; cbn [w_sched w_err w_mode w_done w_now]; auto. apply wait_ok_notify.
-  - split; cbn [w_sched w_err w_mode w_done w_now]; auto. apply wait_ok_notify.
+  intros P Q. rewrite P, Q. apply Permutation_app_head. cbn [app]. symmetry. apply Permutation_middle.
 Qed.
 
-Lemma wrun_inv evs : forall w, winv w -> winv (wrun w evs).
+Lemma perm_tail_to_head {A} (x : A) (l a b c c' : list A) :
+  Permutation l (a ++ b ++ c) -> Permutation c (x :: c') -> Permutation l ((x :: a) ++ b ++ c').
+Proof.
+  intros P Q. rewrite P, Q. cbn [app]. rewrite app_assoc. rewrite <- Permutation_middle. rewrite <- app_assoc. reflexivity.
+Qed.
+
+Lemma wstep_inv aw w e : winv aw w -> winv aw (wstep aw w e).
+Proof.
+  intros I. pose proof I as [IH IE IW ID IC IS]. unfold wstep. rewrite IE.
+  destruct e as [pid id tp|id|dt| | | |].
+  - (* schedule from another thread *)
+    destruct (lock_held w) eqn:LH; [exact I|].
+    unfold schedule. set (en := mkE tp (Some pid) id).
+    destruct (heap_push_ok (w_sched w) en IH) as (H1 & P1 & L1).
+    set (l := heap_push (w_sched w) en) in *.
+    remember (is_empty (w_sched w) || match w_sched w with t :: _ => e_tp en <? e_tp t | [] => true end)%bool as ntf eqn:NT.
+    split; cbn [w_sched w_err w_mode w_done w_now w_in w_rm w_stop]; auto.
+    + (* wait_ok *)
+      unfold wait_ok in *. cbn [w_mode w_sched].
+      destruct (w_mode w) as [|d|d n|] eqn:M; try (solve [destruct ntf; cbn [notify]; exact Logic.I]).
+      * unfold lock_held in LH. rewrite M in LH. discriminate.
+      * destruct ntf; cbn [notify].
+        -- destruct n; [left; reflexivity|]. cbn [orb].
+           destruct aw; [|left; reflexivity].
+           destruct (wake_pred l d) eqn:WP; [left; reflexivity|right].
+           destruct l as [|t' rest'] eqn:EL; [cbn [length] in L1; lia|].
+           cbn [wake_pred] in WP. destruct d as [x|]; [|discriminate].
+           intros u IU. pose proof (heap_top_min_in t' rest' u H1 IU). lia.
+        -- destruct IW as [IW|IW]; [left; exact IW|right].
+           symmetry in NT. destruct (w_sched w) as [|t rest] eqn:ES; [cbn in NT; discriminate|].
+           cbn [is_empty orb] in NT.
+           destruct d as [x|]; [|discriminate]. cbn [bound_ok] in *.
+           intros u IU. apply (Permutation_in _ P1) in IU. destruct IU as [<-|IU]; [|apply IW; exact IU].
+           specialize (IW t (or_introl eq_refl)). lia.
+    + (* conservation *)
+      apply perm_into_tail with (x := en) in IC.
+      rewrite IC. apply Permutation_app_head. apply Permutation_app_head.
+      rewrite <- (pending_cons_live en (w_sched w)) by reflexivity. symmetry. apply pending_perm. exact P1.
+    + (* stop_ok *)
+      intros AW ST. specialize (IS AW ST).
+      destruct (w_mode w) as [|d|d n|]; destruct ntf; cbn [notify]; auto. subst n. reflexivity.
+  - (* remove / cancel from another thread: never notifies, and does not need to *)
+    destruct (lock_held w) eqn:LH; [exact I|].
+    destruct (remove_ok (w_sched w) id IH) as (l' & r & E & H' & TS & EM & SP). rewrite E. cbn [fst snd].
+    split; cbn [w_sched w_err w_mode w_done w_now w_in w_rm w_stop]; auto.
+    + unfold wait_ok in *. cbn [w_mode w_sched].
+      assert (forall d, bound_ok (w_sched w) d -> bound_ok l' d) as B.
+      { intros [x|] Bd; cbn [bound_ok] in *; [|apply EM; exact Bd].
+        intros u IU. destruct (TS u IU) as (u' & IU' & <-). apply Bd. exact IU'. }
+      destruct (w_mode w) as [|d|d n|]; auto. destruct IW as [IW|IW]; [left; exact IW|right; apply B; exact IW].
+    + destruct r as [t|]; cbn [remove_spec] in SP.
+      * destruct SP as (_ & _ & P). apply (perm_tail_to_mid t _ _ _ _ _ IC P).
+      * destruct SP as (P & _). rewrite IC. apply Permutation_app_head. apply Permutation_app_head. exact P.
+  - (* clock *)
+    split; cbn [w_sched w_err w_mode w_done w_now w_in w_rm w_stop]; auto.
+    intros t now IT. destruct (ID t now IT) as (A & B & C). repeat split; auto. lia.
+  - (* one worker iteration, up to its decision *)
+    destruct (runnable w) eqn:RN; cbn [negb]; [|exact I].
+    destruct (w_stop w) eqn:ST.
+    { split; cbn [set_mode w_sched w_err w_mode w_done w_now w_in w_rm w_stop]; auto. constructor. intros _ _. constructor. }
+    destruct (get_expired_ok (w_sched w) (w_now w) IH) as (l' & r & E & H' & SUB & SP). rewrite E.
+    destruct r as [t|tp|]; cbn [expired_spec] in SP.
+    + destruct SP as (LT & DUE & P & _). split; cbn [w_sched w_err w_mode w_done w_now w_in w_rm w_stop].
+      * exact H'.
+      * reflexivity.
+      * exact Logic.I.
+      * intros t0 now [Q|IT]; [inversion Q; subst; repeat split; auto; lia|apply ID; exact IT].
+      * cbn [map fst]. apply (perm_tail_to_head t _ _ _ _ _ IC P).
+      * intros _ Q. discriminate.
+    + destruct SP as (_ & P & _ & MIN). split; cbn [w_sched w_err w_mode w_done w_now w_in w_rm w_stop].
+      * exact H'.
+      * reflexivity.
+      * unfold wait_ok. cbn [w_mode w_sched bound_ok]. exact MIN.
+      * exact ID.
+      * rewrite IC. apply Permutation_app_head. apply Permutation_app_head. exact P.
+      * intros _ Q. discriminate.
+    + destruct SP as (-> & EP). split; cbn [w_sched w_err w_mode w_done w_now w_in w_rm w_stop].
+      * exact H'.
+      * reflexivity.
+      * unfold wait_ok. cbn [w_mode w_sched bound_ok]. reflexivity.
+      * exact ID.
+      * rewrite IC, EP. reflexivity.
+      * intros _ Q. discriminate.
+  - (* entering the wait *)
+    destruct (w_mode w) as [|d|d n|] eqn:M; try exact I.
+    unfold wait_ok in IW. rewrite M in IW.
+    destruct (aw && w_stop w)%bool eqn:AS.
+    + split; cbn [set_mode w_sched w_err w_mode w_done w_now w_in w_rm w_stop]; auto. constructor. intros _ _. constructor.
+    + split; cbn [set_mode w_sched w_err w_mode w_done w_now w_in w_rm w_stop]; auto.
+      * unfold wait_ok. cbn [w_mode w_sched]. right. exact IW.
+      * intros AW ST. cbn [set_mode w_stop] in ST. rewrite AW, ST in AS. discriminate.
+  - (* spurious wake-up: the predicate is evaluated again *)
+    split; cbn [set_mode w_sched w_err w_mode w_done w_now w_in w_rm w_stop]; auto.
+    + unfold wait_ok in *. cbn [w_mode w_sched].
+      destruct (w_mode w) as [|d|d n|]; cbn [notify]; auto.
+      destruct IW as [->|IW]; [left; reflexivity|right; exact IW].
+    + intros AW ST. specialize (IS AW ST). destruct (w_mode w) as [|d|d n|]; cbn [notify]; auto. subst n. reflexivity.
+  - (* request_stop *)
+    split; cbn [w_sched w_err w_mode w_done w_now w_in w_rm w_stop]; auto.
+    + unfold wait_ok in *. cbn [w_mode w_sched]. destruct (w_mode w) as [|d|d n|]; auto.
+    + intros _ _. destruct (w_mode w); cbn [w_mode]; auto.
+Qed.
+
+Lemma wrun_inv aw evs : forall w, winv aw w -> winv aw (wrun aw w evs).
 Proof. induction evs as [|e t IH]; intros w I; cbn [wrun fold_left]; [exact I|]. apply IH. apply wstep_inv. exact I. Qed.
 
 (* (idle wakes on time) for every interleaving of schedule / cancel calls from other threads, clock ticks, spurious
-   wake-ups and stop requests: the worker never hits an out-of-bounds access; it is never left blocked once the clock
-   has reached the time point of any entry of the array; and what it completed was due when completed *)
-Theorem idle_wakes_on_time evs : let w := wrun wst0 evs in
+   wake-ups and stop requests, with either wait primitive: the worker never hits an out-of-bounds access; once the clock
+   has reached the time point of any entry of the array, a worker that has not finished is runnable (after it has entered
+   the wait it had decided on, if it was at that point); and what it completed was due when completed *)
+Theorem idle_wakes_on_time aw evs : let w := wrun aw wst0 evs in
   w_err w = false /\
-  (forall e, In e (w_sched w) -> e_tp e <= w_now w -> runnable w = true) /\
+  (forall e, In e (w_sched w) -> e_tp e <= w_now w -> w_mode w <> WFin -> runnable (wstep aw w WBlock) = true) /\
   (forall t now, In (t, now) (w_done w) -> e_tp t <= now).
 Proof.
-  cbn zeta. pose proof (wrun_inv evs wst0 winv0) as [IH IE IW ID].
+  cbn zeta. pose proof (wrun_inv aw evs wst0 (winv0 aw)) as [IH IE IW ID IC IS].
+  set (w := wrun aw wst0 evs) in *.
   split; [exact IE|]. split.
-  - intros e IN DUE. unfold runnable. unfold wait_ok in IW.
-    destruct (w_mode (wrun wst0 evs)) as [|d ntf]; [reflexivity|].
-    destruct IW as [->|IW]; [reflexivity|].
-    destruct d as [t|].
-    + specialize (IW e IN). apply orb_true_iff. right. lia.
-    + rewrite IW in IN. destruct IN.
+  - intros e IN DUE NF. unfold wstep. rewrite IE. unfold wait_ok in IW.
+    destruct (w_mode w) as [|d|d n|] eqn:M.
+    + unfold runnable. rewrite M. reflexivity.
+    + destruct (aw && w_stop w)%bool; unfold runnable; cbn [set_mode w_mode w_now]; [reflexivity|].
+      cbn [orb]. destruct d as [t|]; cbn [bound_ok] in IW; [specialize (IW e IN); lia|rewrite IW in IN; destruct IN].
+    + unfold runnable. rewrite M. destruct IW as [->|IW]; [reflexivity|].
+      apply orb_true_iff. right. destruct d as [t|]; cbn [bound_ok] in IW; [specialize (IW e IN); lia|rewrite IW in IN; destruct IN].
+    + congruence.
   - intros t now IT. apply (ID t now IT).
 Qed.
 
 (* ... and when it runs with a due live entry in the array, that iteration completes a due entry with the least
    time point among the pending ones (it does not go back to sleep and does not pick a later one) *)
-Theorem worker_resolves_due evs : let w := wrun wst0 evs in
+Theorem worker_resolves_due aw evs : let w := wrun aw wst0 evs in
   w_stop w = false -> runnable w = true ->
   (exists e, In e (pending (w_sched w)) /\ e_tp e <= w_now w) ->
-  exists t, w_done (wstep w WIter) = (t, w_now w) :: w_done w /\ In t (pending (w_sched w)) /\
+  exists t, w_done (wstep aw w WIter) = (t, w_now w) :: w_done w /\ In t (pending (w_sched w)) /\
             (forall u, In u (pending (w_sched w)) -> e_tp t <= e_tp u) /\
-            Permutation (pending (w_sched w)) (t :: pending (w_sched (wstep w WIter))).
+            Permutation (pending (w_sched w)) (t :: pending (w_sched (wstep aw w WIter))).
 Proof.
-  cbn zeta. pose proof (wrun_inv evs wst0 winv0) as [IH IE IW ID].
-  set (w := wrun wst0 evs) in *. intros ST RN (e & IN & DUE).
-  unfold wstep. rewrite IE, ST, RN. cbn [orb negb].
+  cbn zeta. pose proof (wrun_inv aw evs wst0 (winv0 aw)) as [IH IE IW ID IC IS].
+  set (w := wrun aw wst0 evs) in *. intros ST RN (e & IN & DUE).
+  unfold wstep. rewrite IE, ST, RN. cbn [negb].
   destruct (get_expired_ok (w_sched w) (w_now w) IH) as (l' & r & E & H' & SUB & SP). rewrite E.
   destruct r as [t|tp|]; cbn [expired_spec] in SP.
   - destruct SP as (LT & DUE' & P & MIN). exists t. cbn [w_done w_sched]. repeat split; auto.
@@ -1151,6 +1231,47 @@ Proof.
   - exfalso. destruct SP as (FUT & P & _ & MIN).
     apply (Permutation_in _ P) in IN. apply pending_In in IN. destruct IN as [IN _]. specialize (MIN e IN). lia.
   - exfalso. destruct SP as (_ & EP). rewrite EP in IN. destruct IN.
+Qed.
+
+(* (each once, worker) whatever the interleaving: every accepted sleep is, exactly once, either completed by the worker,
+   or taken by a remove / cancel call, or still pending — nothing is lost, nothing is completed twice *)
+Theorem worker_each_once aw evs : let w := wrun aw wst0 evs in
+  Permutation (w_in w) (map fst (w_done w) ++ w_rm w ++ pending (w_sched w)).
+Proof. cbn zeta. apply (wi_cons aw _ (wrun_inv aw evs wst0 (winv0 aw))). Qed.
+
+(* (stop ends the worker) current code, any interleaving, the stop request landing in ANY window — also between the
+   worker's decision to wait and the wait itself: once stop is requested the worker's own next steps leave the loop;
+   ~scheduler, which waits for exactly that, returns *)
+Theorem stop_ends_worker evs : let w := wrun true wst0 evs in
+  w_stop w = true -> w_mode (wrun true w [WBlock; WIter]) = WFin.
+Proof.
+  cbn zeta. pose proof (wrun_inv true evs wst0 (winv0 true)) as [IH IE IW ID IC IS].
+  set (w := wrun true wst0 evs) in *. intros ST. specialize (IS eq_refl ST).
+  cbn [wrun fold_left]. clearbody w. clear - IE ST IS.
+  destruct w as [l now m st dn er wi wr]. cbn [w_err w_stop w_mode] in *. subst er st.
+  destruct m as [|d|d n|]; try subst n; reflexivity.
+Qed.
+
+(* (F-C12d as a theorem about the old wait primitive) with plain condition_variable::wait_until there is an
+   interleaving — stop requested between the decision and the wait, on an empty heap — after which, however long the
+   clock runs and however often the worker is given the processor, it never leaves the loop: ~scheduler hangs *)
+Definition quiet (e : wev) : Prop := e = WIter \/ e = WBlock \/ exists dt, e = WTick dt.
+
+Theorem lost_stop_old : let w := wrun false wst0 [WIter; WStop; WBlock] in
+  w_stop w = true /\ forall evs, Forall quiet evs -> w_mode (wrun false w evs) = WWait None false.
+Proof.
+  cbn zeta. split; [reflexivity|].
+  assert (forall evs w, w_err w = false -> w_mode w = WWait None false -> Forall quiet evs ->
+                        w_mode (wrun false w evs) = WWait None false) as G.
+  { induction evs as [|e t IHe]; intros w E M Q; cbn [wrun fold_left]; [exact M|].
+    inversion Q as [|? ? QE QT]; subst.
+    assert (w_err (wstep false w e) = false /\ w_mode (wstep false w e) = WWait None false) as (E' & M').
+    { unfold wstep. rewrite E. destruct QE as [->|[->|(dt & ->)]].
+      - unfold runnable. rewrite M. cbn [orb negb]. auto.
+      - rewrite M. auto.
+      - cbn [w_err w_mode]. auto. }
+    apply (IHe _ E' M' QT). }
+  intros evs Q. apply G; [reflexivity|reflexivity|exact Q].
 Qed.
 
 (* ================================================================= *)
@@ -1200,4 +1321,118 @@ Proof.
   - split; [reflexivity|constructor].
   - destruct (istep_ok s o I) as (s1 & ob & E & I1 & SH). rewrite E.
     destruct (IH s1 I1) as (L & F). cbn [length]. split; [rewrite L; reflexivity|]. constructor; assumption.
+Qed.
+
+(* ---- cancellation through the stop token hits exactly the generator's pending sleep ---- *)
+Definition gen_pending (s : ist) : Prop :=
+  match i_gen s with
+  | GSleeping => exists t, pending (i_sched s) = [t] /\ e_id t = tag
+  | _ => pending (i_sched s) = []
+  end.
+
+Definition iinv2 (s : ist) : Prop := iinv s /\ gen_pending s.
+
+Lemma perm_single {A} (t : A) l : Permutation [t] l -> l = [t].
+Proof. intros P. apply Permutation_length_1_inv. exact P. Qed.
+
+Lemma istep_ok2 s o : iinv2 s -> exists s1 ob, istep false s o = IOk s1 ob /\ iinv2 s1.
+Proof.
+  intros [[IO IH] GP].
+  assert (iinv s) as I by (split; assumption).
+  destruct (istep_cases false s o) as [->|[->|[->|[->|E]]]].
+  - cbn [istep]. unfold gen_pending in GP.
+    destruct (i_gen s) eqn:G; eexists _, _; (split; [reflexivity|]); split; try exact I;
+      try (split; cbn [i_owner i_sched]; auto; fail); unfold gen_pending; cbn [i_gen i_sched]; try rewrite G; exact GP.
+  - cbn [istep]. unfold gen_pending in GP.
+    destruct (i_gen s) eqn:G;
+      try (eexists _, _; (split; [reflexivity|]); split; [exact I|unfold gen_pending; rewrite G; exact GP]; fail).
+    all: destruct (i_stop s); eexists _, _; (split; [reflexivity|]); (split; [split; cbn [i_owner i_sched schedule fst]; auto; apply heap_push_ok; exact IH|]);
+      unfold gen_pending; cbn [i_gen i_sched schedule fst]; try exact GP.
+    all: set (e := mkE 0 (Some 0%nat) tag); destruct (heap_push_ok (i_sched s) e IH) as (_ & P1 & _);
+      exists e; split; [|reflexivity]; apply perm_single; symmetry;
+      rewrite (pending_perm _ _ P1), (pending_cons_live e) by reflexivity; rewrite GP; reflexivity.
+  - cbn [istep]. destruct (i_stop s); [eexists _, _; split; [reflexivity|]; split; [exact I|exact GP]|].
+    destruct (remove_ok (i_sched s) tag IH) as (l' & r & E & H' & _ & _ & SP).
+    assert (stop_callback false (mkI (i_sched s) (i_gen s) true (i_owner s)) =
+            match r with Some _ => IOk (mkI l' GDone true false) [] | None => IOk (mkI l' (i_gen s) true false) [] end) as ES.
+    { unfold stop_callback, acquire. cbn [i_owner i_sched i_gen i_stop]. rewrite IO. cbn [i_owner i_sched i_gen i_stop].
+      rewrite E. destruct r; reflexivity. }
+    unfold gen_pending in GP.
+    destruct (i_gen s) eqn:G; try (eexists _, _; (split; [reflexivity|]); split; [split; cbn [i_owner i_sched]; auto|unfold gen_pending; cbn [i_gen i_sched]; exact GP]; fail).
+    + (* sleeping: the pending sleep carries the tag and is the one removed *)
+      rewrite ES. destruct GP as (t0 & EP & ET). destruct r as [t|]; cbn [remove_spec] in SP.
+      * destruct SP as (_ & _ & P). rewrite EP in P. apply perm_single in P.
+        eexists _, _. split; [reflexivity|]. split; [split; cbn [i_owner i_sched]; auto|].
+        unfold gen_pending. cbn [i_gen i_sched]. inversion P. reflexivity.
+      * exfalso. destruct SP as (_ & NO). apply (NO t0); [rewrite EP; left; reflexivity|exact ET].
+    + rewrite ES. destruct r as [t|]; cbn [remove_spec] in SP.
+      * exfalso. destruct SP as (_ & _ & P). rewrite GP in P. apply Permutation_nil in P. discriminate.
+      * destruct SP as (P & _). rewrite GP in P. apply Permutation_nil in P.
+        eexists _, _. split; [reflexivity|]. split; [split; cbn [i_owner i_sched]; auto|].
+        unfold gen_pending. cbn [i_gen i_sched]. exact P.
+  - cbn [istep]. unfold acquire. rewrite IO. cbn [i_sched].
+    destruct (get_expired_ok (i_sched s) 1 IH) as (l' & r & E & H' & _ & SP). rewrite E.
+    unfold gen_pending in GP.
+    destruct r as [t|tp|]; cbn [expired_spec] in SP; eexists _, _; (split; [reflexivity|]);
+      (split; [split; cbn [i_owner i_sched]; auto|]); unfold gen_pending; cbn [i_gen i_sched].
+    + destruct SP as (_ & _ & P & _). destruct (i_gen s).
+      3:{ destruct GP as (t0 & EP & _). rewrite EP in P. apply perm_single in P. inversion P. reflexivity. }
+      all: rewrite GP in P; apply Permutation_nil in P; discriminate.
+    + destruct SP as (_ & P & _). destruct (i_gen s).
+      3:{ destruct GP as (t0 & EP & ET). exists t0. split; [|exact ET]. rewrite EP in P. apply perm_single in P. exact P. }
+      all: rewrite GP in P; apply Permutation_nil in P; exact P.
+    + destruct SP as (-> & EP). destruct (i_gen s); try reflexivity.
+      destruct GP as (t0 & EP' & _). rewrite EP in EP'. discriminate.
+  - rewrite E. eexists _, _. split; [reflexivity|]. split; [exact I|exact GP].
+Qed.
+
+(* the state the interval scenario is in after a list of operations *)
+Fixpoint istate (s : ist) (ops : list (list Z)) : ist :=
+  match ops with
+  | [] => s
+  | o :: t => match istep false s o with IOk s1 _ => istate s1 t | _ => s end
+  end.
+
+Lemma istate_inv ops : forall s, iinv2 s -> iinv2 (istate s ops).
+Proof.
+  induction ops as [|o t IH]; intros s I; cbn [istate]; [exact I|].
+  destruct (istep_ok2 s o I) as (s1 & ob & E & I1). rewrite E. apply IH. exact I1.
+Qed.
+
+(* (cancellation through a stop token) after ANY sequence of generator calls / get_expired / earlier stops:
+   request_stop() returns; if the generator is asleep, exactly its pending sleep (the one carrying &tag) is cancelled,
+   nothing stays pending and the generator finishes (its tick future becomes ready without a value: observation 2);
+   otherwise nothing pending exists and nothing changes *)
+Theorem interval_stop_cancels ops : let s := istate ist0 ops in
+  i_stop s = false ->
+  exists s1 ob, istep false s [3] = IOk s1 ob /\ i_stop s1 = true /\ i_owner s1 = false /\
+    (i_gen s = GSleeping ->
+       (exists t, pending (i_sched s) = [t] /\ e_id t = tag) /\ pending (i_sched s1) = [] /\ i_gen s1 = GDone /\
+       ob = [0; 2; Z.of_nat (length (i_sched s1))]) /\
+    (i_gen s <> GSleeping ->
+       pending (i_sched s) = [] /\ pending (i_sched s1) = [] /\ i_gen s1 = i_gen s /\
+       ob = [0; 0; Z.of_nat (length (i_sched s1))]).
+Proof.
+  cbn zeta. assert (iinv2 ist0) as I0 by (split; [split; [reflexivity|apply heap_ok_nil]|reflexivity]).
+  pose proof (istate_inv ops ist0 I0) as [[IO IH] GP]. set (s := istate ist0 ops) in *. intros ST.
+  cbn [istep]. rewrite ST.
+  destruct (remove_ok (i_sched s) tag IH) as (l' & r & E & H' & _ & _ & SP).
+  assert (stop_callback false (mkI (i_sched s) (i_gen s) true (i_owner s)) =
+          match r with Some _ => IOk (mkI l' GDone true false) [] | None => IOk (mkI l' (i_gen s) true false) [] end) as ES.
+  { unfold stop_callback, acquire. cbn [i_owner i_sched i_gen i_stop]. rewrite IO. cbn [i_owner i_sched i_gen i_stop].
+    rewrite E. destruct r; reflexivity. }
+  unfold gen_pending in GP.
+  destruct (i_gen s) eqn:G.
+  1,2,5: eexists _, _; (split; [reflexivity|]); cbn [i_stop i_owner i_sched i_gen]; (split; [reflexivity|]); (split; [exact IO|]);
+    (split; [discriminate|]); intros _; auto.
+  - rewrite ES. destruct GP as (t0 & EP & ET). destruct r as [t|]; cbn [remove_spec] in SP.
+    + destruct SP as (_ & _ & P). rewrite EP in P. apply perm_single in P.
+      eexists _, _. split; [reflexivity|]. cbn [i_stop i_owner i_sched i_gen]. split; [reflexivity|]. split; [reflexivity|].
+      split; [|intros Q; congruence]. intros _. split; [eauto|]. split; [inversion P; reflexivity|]. auto.
+    + exfalso. destruct SP as (_ & NO). apply (NO t0); [rewrite EP; left; reflexivity|exact ET].
+  - rewrite ES. destruct r as [t|]; cbn [remove_spec] in SP.
+    + exfalso. destruct SP as (_ & _ & P). rewrite GP in P. apply Permutation_nil in P. discriminate.
+    + destruct SP as (P & _). rewrite GP in P. apply Permutation_nil in P.
+      eexists _, _. split; [reflexivity|]. cbn [i_stop i_owner i_sched i_gen]. split; [reflexivity|]. split; [reflexivity|].
+      split; [discriminate|]. intros _. auto.
 Qed.
